@@ -187,3 +187,10 @@ Example sample_ok :
   convert_api None (1, 19) (sample ++ [0]) = Err TrailingData /\
   convert_api None (1, 19) [43; 1] = Err Eoi.
 Proof. repeat split; try (vm_compute; reflexivity); vm_compute; discriminate. Qed.
+
+(* why [bytes_ok] is a hypothesis: on a list with an element >= 256 a varint can decode to a value
+   beyond its width, which is not re-encoded canonically (no Rust &[u8] is such a list) *)
+Example bytes_hyp_needed :
+  conv_value [7; 255; 0; 0; 0; 256] = Ok ([7; 255; 0; 0; 0; 0], []) /\
+  conv_value [7; 255; 0; 0; 0; 0] = Ok ([7; 0], []).
+Proof. split; vm_compute; reflexivity. Qed.
